@@ -159,7 +159,8 @@ def report(pid, total, tree, replay_mode=False):
         path = write_replay(pid, vs[0], tree)
         print(f"VIOLATION property={pid} replay={path}")
         if _MOD is not None and hasattr(_MOD, "replay") and not replay_mode:
-            again = _guarded(_MOD.replay, json.loads(json.dumps(vs[0]["case"])))
+            c0 = json.loads(json.dumps(vs[0]["case"]))
+            again = _guarded(_MOD.run_item, c0["item"]) if isinstance(c0, dict) and set(c0) == {"item"} and hasattr(_MOD, "run_item") else _guarded(_MOD.replay, c0)
             ok = bool(again.get("violations"))
             print(f"  replayed in isolation (no explorer): {'violation reproduced' if ok else 'NOT reproduced - the case needs its surrounding history; see the replay file'}")
         print(f"  signature={sig} cases_recorded={len(vs)} detail={json.dumps(vs[0]['detail'])[:300]}")
@@ -261,7 +262,12 @@ def main(argv=None):
         with open(args.replay) as f:
             rp = json.load(f)
         total = {}
-        merge(total, _guarded(mod.replay, rp["case"]))
+        case = rp["case"]
+        if isinstance(case, dict) and set(case) == {"item"} and hasattr(mod, "run_item"):
+            # a generic "library raised" violation recorded by the runner: the replay unit is the whole work item
+            merge(total, _guarded(mod.run_item, case["item"]))
+        else:
+            merge(total, _guarded(mod.replay, case))
         if total.get("engine_error"):
             print("ENGINE-ERROR during replay\n" + total["engine_error"])
             return 2
